@@ -24,6 +24,9 @@ type specCtx struct {
 	frame    *Frame // for local variable lookup in loop invariants (may be nil)
 	loopCtx  *LoopCtx
 	depth    int
+	// case split of the outermost universally quantified index variable against the index just processed
+	splitMode int // 0 none, 1: variable == splitTerm, 2: variable != splitTerm
+	splitTerm *Term
 }
 
 type specBind struct {
@@ -225,17 +228,49 @@ func (c *specCtx) eval(x SExpr) (Val, types.Type) {
 	case *SQuant:
 		nc := c
 		var vars []*Term
-		for _, p := range n.Vars {
+		mode := 0
+		if n.Forall && c.splitMode != 0 {
+			mode = c.splitMode
+			cc := *c
+			cc.splitMode = 0
+			nc = &cc
+		}
+		var splitVar *Term
+		for pi, p := range n.Vars {
 			T := c.resolveType(p.Type)
 			ls := Leaves(T)
+			if pi == 0 && mode == 1 && len(ls) == 1 && ls[0].Sort == SInt {
+				nc = nc.bind(p.Name, scalar(c.splitTerm), T)
+				continue
+			}
 			v := Val{T: make([]*Term, len(ls))}
 			for i, l := range ls {
 				v.T[i] = tb.BoundVar(p.Name+l.Path, l.Sort)
 				vars = append(vars, v.T[i])
 			}
+			if pi == 0 && mode == 2 && len(ls) == 1 && ls[0].Sort == SInt {
+				splitVar = v.T[0]
+			}
 			nc = nc.bind(p.Name, v, T)
 		}
+		if splitVar != nil {
+			k := [2]int{splitVar.ID, c.splitTerm.ID}
+			if k[0] > k[1] {
+				k[0], k[1] = k[1], k[0]
+			}
+			if tb.Distinct == nil {
+				tb.Distinct = map[[2]int]bool{}
+			}
+			tb.Distinct[k] = true
+			defer delete(tb.Distinct, k)
+		}
 		body := nc.evalBool(n.Body)
+		if splitVar != nil {
+			body = tb.Implies(tb.Neq2(splitVar, c.splitTerm), body)
+		}
+		if len(vars) == 0 {
+			return scalar(body), boolType
+		}
 		var pats [][]*Term
 		for _, p := range n.Pats {
 			var pt []*Term
